@@ -372,9 +372,13 @@ read_file(econf_file *ef, const char *file,
     while (*name && isspace((unsigned)*name))
       name++;
 
+    /* A line which starts with a comment character is a comment as a whole,
+       regardless which characters are following. */
+    bool line_is_comment = *name && strchr(comment, *name) != NULL;
+
     /* go through all comment characters and check if one of them could be found */
     for (size_t i = 0; i < strlen(comment); i++) {
-      p = strrchr(name, comment[i]);
+      p = line_is_comment ? name : strrchr(name, comment[i]);
       if (p)
       {
 	if(p==name)
@@ -395,6 +399,7 @@ read_file(econf_file *ef, const char *file,
 	    current_comment_before_key = strdup(p+1);
 	  }
 	  *p = '\0';
+	  break;
 	} else if (ef->python_style == false) { /* not for python config files */
 	  /* Comment is defined after the key/value in the same line */
 	  char *first_quote = strchr(name, '"');
